@@ -81,6 +81,7 @@ class Verifier(QuantMixin, LoopMixin, ExprMixin, CallMixin, StmtMixin, BuiltinsM
         self.use_summaries = False
         self.field_types: Dict[Tuple[str, str], str] = {}
         self.oracle_methods: Dict[str, Dict[str, Any]] = {}
+        self.class_invariants: Dict[str, str] = {}      # external class -> assumed invariant (spec function)
 
     def reset_path(self, decisions):
         super().reset_path(decisions)
@@ -323,6 +324,20 @@ class Verifier(QuantMixin, LoopMixin, ExprMixin, CallMixin, StmtMixin, BuiltinsM
         if spec in ('str', 'int', 'bool', 'none'):
             self.kind_hint[smt.simp(v).get_id()] = spec
         self.bound_ref(v)
+        if spec.startswith('=') and spec[1:] in self.class_invariants:
+            self.assume_class_invariant(v, spec[1:])
+
+    def assume_class_invariant(self, v, cname: str) -> None:
+        """assumed invariant of an EXTERNAL class (framework contract), stated as a spec function of the object"""
+        inv = self.class_invariants.get(cname)
+        if inv is None:
+            return
+        key = ('clsinv', smt.simp(v).get_id())
+        if key in self.global_cache:
+            return
+        self.global_cache[key] = True
+        cl = self.index.find(inv)
+        self._add_axiom(self.clause_holds(cl, {cl.node.args.args[0].arg: v}))
 
     # ==================================================================================== spec primitives
     def ev_Call(self, e: ast.Call, fr: Frame):
@@ -642,6 +657,53 @@ class Verifier(QuantMixin, LoopMixin, ExprMixin, CallMixin, StmtMixin, BuiltinsM
         self.mark_external(v)
         self._add_axiom(self.type_formula(v, 'json', hint=False))
         return v
+
+    # ---- HTTP frameworks (assumed, DESIGN 3.5): responses are records (status, body, content_type)
+    def http_response(self, status, body, content_type):
+        o = self.alloc(builtin_class('ExtHttpResponse'))
+        self.set_attr_raw(o, 'status', status)
+        self.set_attr_raw(o, 'body', body)
+        self.set_attr_raw(o, 'content_type', content_type)
+        return o
+
+    def bi_werkzeug_Response(self, args, kwargs):
+        """werkzeug.Response(body='', status=200, mimetype=None, content_type=None)"""
+        body = args[0] if args else kwargs.get('response', smt.mk_str(''))
+        status = kwargs.get('status', args[1] if len(args) > 1 else smt.mk_int(200))
+        ct = kwargs.get('mimetype', kwargs.get('content_type', smt.NONE))
+        return self.http_response(status, body, ct)
+
+    bi_flask_Response = bi_werkzeug_Response
+    bi_flask_current_app_response_class = bi_werkzeug_Response
+    bi_aiohttp_web_Response = bi_werkzeug_Response
+
+    def bi_aiohttp_web_json_response(self, args, kwargs):
+        """aiohttp.web.json_response(text=..., status=200): content type application/json"""
+        return self.http_response(kwargs.get('status', smt.mk_int(200)), kwargs.get('text', smt.mk_str('')),
+                                  smt.mk_str('application/json'))
+
+    def bb_httpexc_get_response(self, e, args, kwargs):
+        """assumed (werkzeug): HTTPException.get_response() is a response carrying the exception's status code"""
+        c = smt.cls_of(Val.r(e))
+        umt, bad = builtin_class('HTTPUnsupportedMediaType'), builtin_class('HTTPBadRequest')
+        self.use_class(umt)
+        self.use_class(bad)
+        other = self.fresh('http_code', smt.I)
+        self._add_axiom(z3.And(other >= 400, other != 415, other != 400))
+        code = z3.If(smt.sub(c, z3.IntVal(umt.cid)), 415, z3.If(smt.sub(c, z3.IntVal(bad.cid)), 400, other))
+        body = self.fresh('http_body')
+        self._add_axiom(Val.is_str(body))
+        return self.http_response(smt.simp(Val.int(code)), body, smt.mk_str('text/html'))
+
+    def bi_werkzeug_Request(self, args, kwargs):
+        """werkzeug.Request(environ): the request object of this WSGI call (opaque; one per environ)"""
+        f = z3.Function('ufv_wsgi_request', Val, Val)
+        r = f(args[0])
+        K = builtin_class('ExtHttpRequest')
+        self.mark_external(r)
+        self._add_axiom(self.type_formula(r, '=ExtHttpRequest'))
+        self.assume_class_invariant(r, 'ExtHttpRequest')
+        return r
 
     def bi_time_sleep(self, args, kwargs):
         """assumed: time.sleep / asyncio.sleep only pause; recorded as a ghost event ('sleep', (delay,))"""
@@ -1014,12 +1076,23 @@ class Verifier(QuantMixin, LoopMixin, ExprMixin, CallMixin, StmtMixin, BuiltinsM
             if cond is not None:
                 self.assume_checked(cond)
             guards = [z3.BoolVal(True)]
+        iffs = {}
         for rc in raises:
             g = z3.Not(cond) if cond is not None else z3.BoolVal(True)
             short = rc.split(':')[-1].split('.')[-1]
             if short in ct.raises_iff:
-                g = self.clause_holds(ct.raises_iff[short], env)
+                g = iffs[short] = self.clause_holds(ct.raises_iff[short], env)
             guards.append(g)
+        if iffs and len(guards) > 1:
+            # equivalences: a normal return (and any other exception) means the condition was false
+            guards[0] = z3.And(guards[0], *[z3.Not(g) for g in iffs.values()])
+            for j, rc in enumerate(raises):
+                short = rc.split(':')[-1].split('.')[-1]
+                Kj = self.resolve_class(rc)
+                others = [g for kn, g in iffs.items() if kn != short
+                          and not Kj.is_subclass(self.resolve_class(next(r for r in raises if r.split(':')[-1].split('.')[-1] == kn)))]
+                if others:
+                    guards[j + 1] = z3.And(guards[j + 1], *[z3.Not(g) for g in others])
         self.havoc_modifies(ct, env)
         if len(guards) == 1:
             k = 0
@@ -1370,6 +1443,16 @@ class Verifier(QuantMixin, LoopMixin, ExprMixin, CallMixin, StmtMixin, BuiltinsM
             self.st.restore(saved)
             self.oblige('returns_iff', 'returned normally, so the returns_iff condition must hold', c,
                         ct.props_of('returns_iff'))
+        for kn, cl in ct.raises_iff.items():
+            # raises_<K>_iff is an equivalence: a normal return shows its condition was false
+            if f'raises_{kn}_iff' in skip:
+                continue
+            saved = self.st.snapshot()
+            self.st.restore(self.old)
+            c = self.clause_holds(cl, vals)
+            self.st.restore(saved)
+            self.oblige('raises_iff', f'returned normally, so the condition of raising {kn} must be false', z3.Not(c),
+                        ct.props_of(f'raises_{kn}_iff'))
         if ct.result_type:
             self.oblige('result_type', f'result : {ct.result_type}', self.type_formula(result, ct.result_type),
                         ct.props_of('result_type'))
@@ -1407,6 +1490,14 @@ class Verifier(QuantMixin, LoopMixin, ExprMixin, CallMixin, StmtMixin, BuiltinsM
                 self.st.restore(saved)
                 self.oblige('raises_iff', f'raised {K.name}, so its condition must hold', cnd,
                             ct.props_of(f'raises_{K.name}_iff'))
+            if K.name in ct.raises_iff and c is not None and not c.is_subclass(K) and \
+                    not any(k2 is not K and c.is_subclass(k2) and K.is_subclass(k2) for k2 in allowed):
+                saved = self.st.snapshot()
+                self.st.restore(self.old)
+                cnd = self.clause_holds(ct.raises_iff[K.name], vals)
+                self.st.restore(saved)
+                self.oblige('raises_iff', f'raised {c.name}, not {K.name}, so the condition of {K.name} must be false',
+                            z3.Not(cnd), ct.props_of(f'raises_{K.name}_iff'))
             if c is not None and c.is_subclass(K):
                 for cl in ct.ensures_on.get(K.name, []):
                     self.oblige('ensures_on', cl.name, self.clause_holds(cl, env), ct.props_of(cl.name))
